@@ -1060,7 +1060,15 @@ class IMAPSubprocessInterface:
             while True:
                 if self.reader.at_eof():
                     break
-                msg = await self.reader.readuntil(b"\r\n")
+                try:
+                    msg = await self.reader.readuntil(b"\r\n")
+                except asyncio.LimitOverrunError as exc:
+                    # More octets than the reader's limit without a line
+                    # terminator (a long line in a message). They are
+                    # still in the reader's buffer: pass them on as they
+                    # are and carry on.
+                    #
+                    msg = await self.reader.readexactly(exc.consumed)
                 await self.imap_client.push(msg)
         except (OSError, asyncio.IncompleteReadError, ConnectionResetError):
             pass
